@@ -10,24 +10,41 @@ from engine import SPEC, gen_states, pool_map
 from readers import bgzf_blocks, join_lines, load_pickle, read_text, run_cli, split_tag, write_text, workdir
 
 GRAPHS = {"a": json.load(open(os.path.join(SPEC, "data", "sort_graph.json"))), "b": json.load(open(os.path.join(SPEC, "data", "sort_graph_b.json"))),
-          "c": json.load(open(os.path.join(SPEC, "data", "sort_graph_c.json")))}      # c = a with every BO + 1000 (order_gfa numbers BO across chromosomes)
+          "c": json.load(open(os.path.join(SPEC, "data", "sort_graph_c.json"))),      # c = a with every BO + 1000 (order_gfa numbers BO across chromosomes)
+          # d = a with four segments renamed to names made of more than word characters whose word prefix is ANOTHER segment
+          # (s2.1, s4-b, t2#h1, s1:u) and contig names with ':' '*' '#' (a region-style name, an HLA allele, a PanSN name)
+          "d": json.load(open(os.path.join(SPEC, "data", "sort_graph_d.json")))}
+REN_D = json.load(open(os.path.join(SPEC, "data", "sort_rename_d.json")))
+
+
+def rename(recs, variant):
+    if variant != "d":
+        return recs
+    return [dict(r, walk=[[o, REN_D.get(n, n)] for o, n in r["walk"]]) for r in recs]
+
 GRAPH = GRAPHS["a"]      # node ids and lengths are the same in both taggings
 POOL = json.load(open(os.path.join(SPEC, "data", "sort_pool.json")))
 
+REN_BACK = {v: k for k, v in REN_D.items()}
 OPTS = [["tp:A:P", "cg:Z:{L}="], ["NM:i:0", "cg:Z:{L}=", "zq:Z:x_y#1"], ["cg:Z:{L}="], ["dv:f:0.01", "id:Z:r:1"]]
 
 
 def gfa_text(variant="a"):
     out = []
-    for n, g in GRAPHS[variant].items():
-        out.append(f"S\t{n}\t*\tLN:i:{g['ln']}\tSN:Z:{g['sn']}\tSO:i:{g['so']}\tSR:i:{g['sr']}\tBO:i:{g['bo']}\tNO:i:{g['no']}")
+    for k, (n, g) in enumerate(GRAPHS[variant].items()):
+        line = f"S\t{n}\t*\tLN:i:{g['ln']}\tSN:Z:{g['sn']}\tSO:i:{g['so']}\tSR:i:{g['sr']}\tBO:i:{g['bo']}\tNO:i:{g['no']}"
+        if k % 2 == 1:      # user tags in the lower-case namespace that look like the reserved ones: they are other tags
+            line += "\tno:i:35\tbo:i:77\tsn:Z:other\tsr:i:0"
+        out.append(line)
     return "\n".join(out) + "\n"
 
 
 def gaf_line(k, r, pad=0):
-    plen = sum(GRAPH[n]["ln"] for _, n in r["walk"])
+    plen = sum(GRAPH[REN_BACK.get(n, n)]["ln"] for _, n in r["walk"])
     L = r["pe"] - r["ps"]
     opt = [o.format(L=L) for o in OPTS[k % len(OPTS)]]
+    if k % 7 == 5:       # a record that went through sort before, against another ordering of the graph: its old fields are just fields
+        opt += ["bo:i:77", "sn:Z:old_contig", "iv:i:1"]
     if pad:
         opt.append("zz:Z:" + "p" * pad)
     path = "".join(o + n for o, n in r["walk"])
@@ -77,6 +94,7 @@ def run_sort_case(job):
     try:
         gfa = os.path.join(d, "g.gfa")
         write_text(gfa, gfa_text(variant))
+        recs = rename(recs, variant)
         lines = [gaf_line(k + 1, r, pad) for k, r in enumerate(recs)]
         gaf = os.path.join(d, "in.gaf" + (".gz" if in_storage == "bgzf" else ""))
         write_text(gaf, join_lines(lines, cid), in_storage, block=block)
@@ -175,14 +193,14 @@ def run_mode(ctx, mode):
             jobs.append((f"s{tag}{int(bg)}", [rnd.choice(pool) for _ in range(6)], mode, "plain", bg, False, 0, 150))
     # the same node ids under two different taggings, alternating within each worker process (state kept between
     # calls - caches keyed by node id, mutable defaults - would show up as values of the other graph)
-    jobs = [j + (("a", "b", "c")[k % 3],) for k, j in enumerate(jobs)]
+    jobs = [j + (("a", "b", "c", "d")[k % 4],) for k, j in enumerate(jobs)]
     cases = pool_map(run_sort_case, jobs, chunk=8)
     ctx.evaluations += len(cases)
     for c in cases:
         if len(c["file"]) >= 2:
             ctx.nontrivial.add(json.dumps(c["file"], sort_keys=True) + str(c["cfg"]))
     verdicts = {}
-    for variant, fname in (("a", "data/sort_graph.json"), ("b", "data/sort_graph_b.json"), ("c", "data/sort_graph_c.json")):
+    for variant, fname in (("a", "data/sort_graph.json"), ("b", "data/sort_graph_b.json"), ("c", "data/sort_graph_c.json"), ("d", "data/sort_graph_d.json")):
         verdicts.update(ctx.validate("Check_Sort", [c for c in cases if c["cfg"]["graph"] == variant], cfg="Check_Sort.cfg", env={"SORT_GRAPH": fname}))
     for c in cases:
         v = verdicts[c["id"]]
